@@ -4,6 +4,7 @@ import Bardolph.Driver.Ast
 import Bardolph.Driver.Web
 import Bardolph.Driver.Output
 import Bardolph.Driver.Snapshot
+import Bardolph.Driver.Units
 /-! All driver handlers; `dispatch` routes one request line. -/
 namespace Bardolph.Driver
 
@@ -13,7 +14,8 @@ def handlers : List (String → List String → Option String) := [
   AstD.handle,
   Web.handle,
   Out.handle,
-  Snap.handle
+  Snap.handle,
+  Units.handle
 ]
 
 def dispatch (line : String) : String :=
